@@ -17,7 +17,7 @@ import gaddlemaps
 import gaddlemaps._backend as backend
 
 from checks import align_common as ac
-from checks.c07_atom_move import bond_table
+from checks.c07_atom_move import bond_table, table_order
 
 PROPERTY = "C09"
 LEVEL = "exploration"
@@ -133,7 +133,7 @@ def check(case):
         # rotations and single-atom moves of a single-precision array are themselves only single-precision exact
         mob0 = mob0.astype(np.float32).astype(float)
     edges = [tuple(e) for e in case["edges"]]
-    tab = bond_table(len(mob0), edges, case["lengths"])
+    tab = bond_table(len(mob0), edges, case["lengths"], table_order(case))
     restr = [tuple(r) for r in case["restr"]]
     deform = tuple(case["deform"])
     budget = case["steps"]
